@@ -42,3 +42,8 @@ let () = register "sf_excess" (fun () ->
   let fl = next_list (fun () -> let e = next_edge () in let z = next_z () in (e, z)) in
   let p = next_list next_n in
   Printf.printf "%s %d\n" (bit (excess_pos_dec fl p)) (int_of_z (excess_of fl p)))
+(* sf_iexcess <bl: u v lb ub> <p: nodes>  -> "<0|1> <worst-case excess>"   (inexact flows) *)
+let () = register "sf_iexcess" (fun () ->
+  let bl = next_list (fun () -> let e = next_edge () in let l = next_z () in let u = next_z () in (e, (l, u))) in
+  let p = next_list next_n in
+  Printf.printf "%s %d\n" (bit (inexact_pos_dec bl p)) (int_of_z (inexact_excess_of bl p)))
